@@ -2,7 +2,7 @@
 import sys, time
 import os; sys.path.insert(0, os.path.dirname(os.path.dirname(os.path.abspath(__file__))))
 from contracts import build_registry
-from pyvc.verify import verify_function
+from pyvc.verify import verify_function, verify_many
 from pyvc.solve import discharge
 
 def main():
@@ -10,7 +10,7 @@ def main():
     names = sys.argv[1:] or list(reg.contracts)
     for q in names:
         t0 = time.time()
-        fr = verify_function(reg, q)
+        fr = verify_many(reg, [q])[q]
         print(f"== {q}: paths={fr.paths} obligations={len(fr.obligations)} outcomes={fr.outcomes} symex={fr.seconds:.1f}s")
         if fr.error:
             print("   ERROR:", fr.error)
